@@ -1,0 +1,11 @@
+//go:build verif
+
+package grpcadapter
+
+import "time"
+
+// Exports of unexported pure functions for the external verification harness (tag "verif" only).
+
+func VerifDecodeTimeout(s string) (time.Duration, bool) { return decodeTimeout(s) }
+
+func VerifDecodeBinHeader(v string) ([]byte, error) { return decodeBinHeader(v) }
